@@ -261,6 +261,22 @@ theorem t2_silent_when_gone (tlv : Bool) (fam op : String) (l : Phases) (v : Val
     | sense f g ihf ihg => intro cur _ hq; exact absurd hq (by simp [Quiet])
   exact hd P 0 hc hq
 
+/-- ... and `protect` with a password on Ultralight C / NTAG21x: its first command (a WRITE or, on NTAG21x,
+the READ of the configuration pages) already fails with TIMEOUT_ERROR, the re-activation at its end is never
+reached -/
+theorem t2_protectpw_silent_when_gone (tlv : Bool) (fam : String) (s : Step) (rest : List Step) (more : Phases)
+    (v : Val) (nret : Nat) (P : Prog) (w : World)
+    (h : prog Cfg.repaired tlv fam "protectpw" ((s :: rest) :: more) v nret = some P)
+    (hf : fam = "t2ulc" ∨ fam = "t2ntag") (hs2 : s.cmd.tok ≠ "s2") (hg : w.gone = true) :
+    run Cfg.repaired P 0 w = (.exc (.tagCmd 0), w) := by
+  rcases hf with hf | hf <;> subst hf <;>
+  (simp only [prog, ph, List.getD_cons_zero] at h
+   cases h
+   simp only [chain, hs2, false_and, if_false]
+   unfold run
+   rw [prim_t12_gone Cfg.repaired _ _ _ w rfl hg]
+   rfl)
+
 /-! ## counter-examples (open findings) and as-found behaviour -/
 
 def rd0 : Step := ⟨⟨"r0", false⟩, .ok⟩
@@ -356,6 +372,10 @@ example : (dumpT2.bind fun d => presT2.map fun p =>
 example : (dumpT2.bind fun d => presT2.map fun p =>
     let r := session Cfg.repaired (.ret .none) [⟨false, .none, false, d, d⟩, ⟨false, .none, false, p, p⟩] false (start [] [true])
     (r.1, r.2.log.length, r.2.gone)) = some ([.ok .list, .ok .true_], 4, false) := by decide +kernel
+/-- Ultralight C, target gone: protect with a password fails at its first WRITE, nothing is sent -/
+example : (prog Cfg.repaired true "t2ulc" "protectpw" [[wr4], [rd0], []] .true_ 0).map
+    (fun P => let r := run Cfg.repaired P 0 { script := [.ans], gone := true, lost := true }
+              (r.1, r.2.log.length, r.2.script.length)) = some (.exc (.tagCmd 0), 0, 1) := by decide +kernel
 example : FromTable true ["t4"] (chain Cfg.repaired ⟨.t4, 1, true⟩ .tagErr .raise [upd 0] (fin .unit)) :=
   ⟨"t4", "write", [[upd 0]], .unit, 1, by simp, rfl⟩
 example : Sound (start [tmo] [false, true]) := start_sound _ _
